@@ -346,6 +346,16 @@ ST_HQ = {"id": "ST-query-history", "text": "after the history the index's candid
                           "st_hq_add_qa_addb_qb": {"mem_gb": 24, "sched_gb": 24}, "st_hq_addb_qb_add_qa": {"mem_gb": 24, "sched_gb": 24},
                           "st_hq_add_qa_adde_qb": {"mem_gb": 24, "sched_gb": 24}}}
 
+import store_gen_names as _sg
+ST_EXH_TOP = {"id": "ST-top-exhaustive", "text": "as ST-top-history, for EVERY operation sequence of length 1..3 over {add \"a\", add \"b\", clear, limit:=1, limit:=2, "
+                                                 "empty-query lookup} that contains an add (generated by bin/gen_store_histories.py), ratings / ids symbolic",
+              "bounds": "152 histories, exhaustive up to length 3 over 6 operations", "opts": dict(ST_OPTS, sched_gb=6),
+              "quick": [], "thorough": _sg.TOP}
+ST_EXH_Q = {"id": "ST-query-exhaustive", "text": "as ST-query-history (candidates for the query \"a\"), for EVERY operation sequence of length 1..3 over {add \"a\", add \"b\", "
+                                                 "clear, lookup \"a\", lookup \"b\"} with exactly one add (two records plus lookups exceed 20 GB; those are the hand-picked ST-query-history instances)",
+            "bounds": "exhaustive up to length 3 over 5 operations, one add", "opts": dict(ST_OPTS, mem_gb=14, sched_gb=5, timeout=3000),
+            "quick": [], "thorough": _sg.QUERY}
+
 PROPS["C12"] = {
     "assumptions": ST_ASSUME + ["glue (DESIGN §5 C12): Store::search on an empty query scores each listed record (EMPTY-score: no matches, filter keeps it - lemma TM-structure "
                                 "at the empty-query shape), then orders by compare_hits (CMP-order), whose first six components are equal for match-less hits, so the order is "
@@ -360,5 +370,5 @@ PROPS["C10"] = {
                                 "which ARE the abstract state; everything downstream is a function of (record, query, limit, dividers); the scratch buffers' history "
                                 "independence is DL-hist (C16) and JAC-hist (C17)"],
     "outside": "histories other than the enumerated ones; titles other than the concrete ones; Store::search itself after the history; the registry (lib.rs)",
-    "lemmas": [ST_HT, ST_HQ],
+    "lemmas": [ST_HT, ST_HQ, ST_EXH_TOP, ST_EXH_Q],
 }
